@@ -161,12 +161,26 @@ def check_union_typevar(ctx):
     filt = [n for n in ast.walk(f.node) if isinstance(n, ast.GeneratorExp) and any("_not_made" in norm(i) for g in n.generators for i in g.ifs)]
     if not filt:
         ctx.bad("C15.2", f, f.node, "union members that cannot be made (scalar types outside the category) are not dropped", construct="_not_made filter")
-    zero = [st for st in ast.walk(f.node) if isinstance(st, ast.If) and norm(st.test) == "len(out) == 0" and any(isinstance(x, ast.Raise) for x in st.body)]
+    # the variable that holds the members that could be made (whatever it is called)
+    made_vars = set()
+    for a in ast.walk(f.node):
+        if isinstance(a, ast.Assign) and len(a.targets) == 1 and isinstance(a.targets[0], ast.Name) and any(g_ is x for g_ in filt for x in ast.walk(a.value)):
+            made_vars.add(a.targets[0].id)
+    if filt and not made_vars:
+        raise AnalysisError("C15.2: the members of a union that could be made are not kept in a variable the rule can follow")
+    def is_empty_test(t):
+        for v_ in made_vars:
+            if norm(t) in (f"len({v_}) == 0", f"not {v_}", f"{v_} == ()", f"len({v_}) < 1"):
+                return True
+        return False
+    zero = [st for st in ast.walk(f.node) if isinstance(st, ast.If) and is_empty_test(st.test) and any(isinstance(x, ast.Raise) for x in st.body)]
+    zero += [st for st in ast.walk(f.node) if isinstance(st, ast.If) and any(norm(st.test) in (f"len({v_}) != 0", f"len({v_}) > 0", v_) for v_ in made_vars)
+             and any(isinstance(x, ast.Raise) for x in st.orelse)]
     if not zero:
         ctx.bad("C15.2", f, f.node, "a union none of whose members can be made is not a ValueError", construct="empty union ValueError")
     else:
         ctx.ok("C15.2", f.qualname, "not-made members dropped; none left -> ValueError; one -> itself; several -> Union")
-    unions = [a for a in ast.walk(f.node) if isinstance(a, ast.Subscript) and norm(a) == "Union[out]"]
+    unions = [a for a in ast.walk(f.node) if isinstance(a, ast.Subscript) and norm(a.value) == "Union" and norm(a.slice) in made_vars]
     if not unions:
         ctx.bad("C15.2", f, f.node, "several made members are not returned as their Union", construct="Union[out]")
     # TypeVar table
